@@ -237,6 +237,23 @@ def substitution_is_captured(subst: dict[NamedId, Expr], e: Expr) -> bool:
     return bool(free.names & bound.names)
 
 
+def names_read(exprs: 'list[Expr]') -> set[NamedId]:
+    """The names *exprs* read."""
+    free = _VarNames()
+    for e in exprs:
+        free._visit_expr(e, None)
+    return free.names
+
+
+def stage_rebinds(subst: dict[NamedId, Expr], target: Id | TupleBinding) -> bool:
+    """Whether a comprehension stage binding *target* re-binds a name that an
+    earlier stage had substituted, or one that a replacement reads (the index,
+    a source): past that stage the substituted reads would mean something else.
+    """
+    bound = set(_binding_names(target))
+    return bool(bound & (set(subst) | names_read(list(subst.values()))))
+
+
 class SubstNames(DefaultTransformVisitor):
     """Replace every :class:`Var` reference to a name in *subst* with the
     corresponding expression.  Scope-aware: a comprehension target that shadows
@@ -256,12 +273,20 @@ class SubstNames(DefaultTransformVisitor):
 
     def _visit_list_comp(self, e: ListComp, ctx: Any):
         # Disable any substitution this comp's targets shadow, then restore.
+        # Stage by stage: an iterable is evaluated before its own target is
+        # bound, so it sees the targets of the earlier stages only -- and the
+        # first one is evaluated in the enclosing scope.
         shadowed: dict[NamedId, Expr] = {}
-        for target in e.targets:
-            for name in _binding_names(target):
-                if name in self._subst:
-                    shadowed[name] = self._subst.pop(name)
         try:
-            return super()._visit_list_comp(e, ctx)
+            targets: list[Id | TupleBinding] = []
+            iterables: list[Expr] = []
+            for target, iterable in zip(e.targets, e.iterables):
+                iterables.append(self._visit_expr(iterable, ctx))
+                for name in _binding_names(target):
+                    if name in self._subst:
+                        shadowed[name] = self._subst.pop(name)
+                targets.append(self._visit_binding(target, ctx))
+            elt = self._visit_expr(e.elt, ctx)
+            return ListComp(targets, iterables, elt, e.loc)
         finally:
             self._subst.update(shadowed)
